@@ -288,6 +288,9 @@ pub struct Cfg {
     pub cross_act: bool,
     /// probe handlers may synchronously trigger an event of another (not currently sending) upstream
     pub nested_events: bool,
+    /// nested events may also come from the subscription that is in the middle of a send
+    /// (subject-like sources: the sink's handler makes the very source it listens to emit or end)
+    pub self_reentrancy: bool,
     /// C15 only: the sink may keep pulling after (and from inside the handler of) the completion
     pub pull_after_end: bool,
     /// puppet may fail (emit Error)
@@ -321,6 +324,7 @@ impl Default for Cfg {
             cross_act: false,
             nested_events: false,
             pull_after_end: false,
+            self_reentrancy: false,
             puppet_err: true,
             spawn_fail: false,
             no_nested_emit: false,
